@@ -77,7 +77,7 @@ PhysModelEqualsCircuit == cand = 0 => \A n \in PhysNames :
 OnlyFirst == cand = 0
 EmitCase == IF Emit /\ cand = 0
             THEN PrintT(ToJson([tomo |-> tomo, A |-> MatA(tomo), b |-> VecB(tomo), numvar |-> TNumVar(tomo),
-                                rank |-> Rank(MatA(tomo)),
+                                rank |-> RankP(MatA(tomo)),
                                 phys |-> {[name |-> n, obj |-> PhysObj(n), var |-> PhysVar(n), dist |-> CircuitAll(tomo, PhysVar(n))] : n \in PhysNames}]))
             ELSE TRUE
 =============================================================================
